@@ -43,7 +43,7 @@ func VerifH07a() {
 	var input []byte
 	sync := vMsgBytes('S', nil)
 	for i := 0; i < K; i++ {
-		kinds[i] = vChoose(7)
+		kinds[i] = vChoose(8)
 		n1[i] = vSymName()
 		switch kinds[i] {
 		case 0: // Parse n1
@@ -61,6 +61,8 @@ func VerifH07a() {
 			input = append(input, vMsgBytes('C', vCat([]byte{'S'}, vCStr(n1[i])))...)
 		case 6:
 			input = append(input, vMsgBytes('C', vCat([]byte{'P'}, vCStr(n1[i])))...)
+		case 7: // a simple query in between: it defines and alters no name, not even the unnamed ones
+			input = append(input, vMsgBytes('Q', vCStr([]byte("s")))...)
 		}
 		input = append(input, sync...)
 	}
@@ -84,7 +86,7 @@ func VerifH07a() {
 		}
 		return nil
 	}
-	rebound, reparsed := false, false
+	rebound, reparsed, sawSimple := false, false, false
 	// portals built from a statement that was closed afterwards: whether they
 	// survive (this library) or are closed with it (PostgreSQL) is not settled
 	// by the property; both are accepted
@@ -147,6 +149,9 @@ func VerifH07a() {
 				if reparsed {
 					vReach("execute-after-reparse")
 				}
+				if sawSimple {
+					vReach("execute-after-a-simple-query")
+				}
 			}
 		case 5:
 			vAssert("close-complete", got == "3")
@@ -158,12 +163,18 @@ func VerifH07a() {
 		case 6:
 			vAssert("close-complete", got == "3")
 			portals = append(portals, vNamedPortal{n1[i], nil})
+		case 7:
+			vAssert("simple-query-cycle", vCount(got, 'Z') == 1 && got[len(got)-1] == 'Z')
+			sawSimple = true
 		}
 		gotS, errS := w.step()
 		vAssert("sync-ready", errS == nil && gotS == "Z")
 	}
 	if rebound {
 		vReach("portal-rebound")
+	}
+	if sawSimple {
+		vReach("simple-query-in-history")
 	}
 }
 
